@@ -10,7 +10,9 @@ import runlib
 import tlc
 
 NAMEPOOLS = [['La', 'Lb', 'Lc', 'Ld', 'Le', 'Lf'], ['Zeta', 'alpha', 'Beta', '_x', 'm10', 'Aux'],
-             ['m9', 'm10', 'M', 'a_', 'a0', 'Z9']]
+             ['m9', 'm10', 'M', 'a_', 'a0', 'Z9'],
+             # names that differ only in zero padding / that a 'natural' order would tie or swap
+             ['S1', 'S01', 'S2', 'S10', 'S001', 'S02']]
 UNIT = 'zope.testrunner.layer.UnitTests'
 
 
